@@ -47,6 +47,8 @@ func (p prog) cfg() gmars.SimulatorConfig {
 	mode := gmars.ICWS94
 	if p.Dialect == 88 {
 		mode = gmars.ICWS88
+	} else if (p.M+p.L+p.P)%2 == 1 {
+		mode = gmars.NOP94 // the third simulator mode is a '94 dialect too (a function of the program, so that replays agree)
 	}
 	return gmars.SimulatorConfig{Mode: mode, CoreSize: gmars.Address(p.M), Processes: gmars.Address(p.P), Cycles: 1000,
 		ReadLimit: gmars.Address(p.M), WriteLimit: gmars.Address(p.M), Length: gmars.Address(p.L), Distance: gmars.Address(p.D)}
